@@ -23,6 +23,11 @@ def num_term(a):
     return '(I %s)' % cz(a[1]) if a[0] == 'I' else '(F %s)' % cq(Fraction(a[1]))
 
 
+# degree-3 polynomials: with 16-bit integer parts and 10 fractional bits the exact result needs more than 53 bits,
+# so binary64 rounds and the ideal-float model (exact rationals) legitimately differs; keep |x| <= 64 for these
+DEGREE3 = {'cubed', 'ring3', 'ring4'}
+
+
 def gen_args(rng, n, name):
     def one():
         k = rng.random()
@@ -30,7 +35,7 @@ def gen_args(rng, n, name):
             return ['I', str(rng.randint(-9, 9))]
         j = rng.choice([0, 1, 2, 3, 4, 10])
         v = Fraction(rng.randint(-(1 << (6 + j)), 1 << (6 + j)), 1 << j)
-        if rng.random() < 0.15:
+        if rng.random() < 0.15 and name not in DEGREE3:
             v = Fraction(rng.randint(-(1 << 16), 1 << 16), 1 << rng.randint(0, 10))
         return ['F', str(v)]
     args = [one() for _ in range(n)]
